@@ -18,7 +18,7 @@ CHECKS = {
          "DESIGN.md §4 C02"),
  "C03": ("exploration",
          "reference-model monitor over generated sequentialised command histories (fresh EXAMINE views vs executable model), bulk sizes around the SQL batching limit",
-         "Runs the real server in-process and compares, after every few commands of PRNG-generated histories (APPEND/STORE/EXPUNGE/UID EXPUNGE/CLOSE/COPY/MOVE, valid and failing, 1-4 sessions, 3 mailboxes, same-mailbox and already-present destinations) and after each bulk command at sizes 1..2001, the authoritative content of every mailbox (order, flags, bytes) with a small reference model written from the property text. Held on the histories explored; exploration is the right level because the input space is unbounded command sequences.",
+         "Runs the real server in-process and compares, after every few commands of PRNG-generated histories (APPEND/STORE/EXPUNGE/UID EXPUNGE/CLOSE/COPY/MOVE, valid and failing, 1-4 sessions, 3 mailboxes, same-mailbox and already-present destinations) after each bulk command at sizes 1..2001, in 'live' histories with lagging selections and UID commands, and in a directed 144-row table for a message that lives in two mailboxes (who marks it \\Deleted x flag change through the other mailbox x how the session learns of it x EXPUNGE/UID EXPUNGE/CLOSE), the authoritative content of every mailbox (order, flags, bytes) with a small reference model written from the property text. Held on the histories explored; exploration is the right level because the input space is unbounded command sequences.",
          "Trusts the harness wire client/parser and the reference model; each command is issued right after SELECT so the issuing view equals the authoritative content; order inside one multi-message COPY/MOVE batch is compared as a set.",
          "DESIGN.md §4 C03"),
 
